@@ -24,6 +24,15 @@ namespace verif {
 
   size_t engine_size() { return sizeof(Engine); }
 
+  chaiscript::ModulePtr make_stdlib_module() { return create_chaiscript_stdlib(); }
+
+  Engine *make_engine_from_module_at(void *where, const chaiscript::ModulePtr &lib, std::vector<std::string> use_paths) {
+    if (where) {
+      return new (where) Engine(lib, create_chaiscript_parser(), std::vector<std::string>{}, std::move(use_paths), engine_options());
+    }
+    return new Engine(lib, create_chaiscript_parser(), std::vector<std::string>{}, std::move(use_paths), engine_options());
+  }
+
   void warm_up() {
     static bool done = false;
     if (done) {
